@@ -599,7 +599,7 @@ theorem scot_seats_filled (hA : LawfulArith A) (hex : A.exact = false) (s0 : St 
 /-- **C09, Scottish rule**: in the record of the whole count — main loop and epilogue — statuses only move forward, and
     when the main loop stops the elected do not exceed the seats. -/
 theorem scot_record_monotone (hA : LawfulArith A) (hex : A.exact = false) (s0 t : St α) (h0 : ScotStart A s0)
-    (h : scotCount A s0 = some t) : RecMon (snaps t.acts) ∧ Ext s0 t := by
+    (h : scotCount A s0 = some t) : Mon t ∧ Ext s0 t := by
   unfold scotCount at h
   cases hl : loopN (fun _ => true) (scotBody A) (2 * s0.cands.length + 3) (scotInit A s0) with
   | none => rw [hl] at h; cases h
@@ -607,7 +607,7 @@ theorem scot_record_monotone (hA : LawfulArith A) (hex : A.exact = false) (s0 t 
     rw [hl] at h; cases h
     obtain ⟨⟨hIE, hM, _, _⟩, hX, _⟩ := scot_loop_exit A hA hex s0 s4 h0 hl
     obtain ⟨hg, hx, _⟩ := scotEpilogue_spec A (s := s4) ⟨hIE.1, hM⟩
-    refine ⟨hg.2.1, Ext.trans ?_ (hX.trans hx)⟩
+    refine ⟨hg.2, Ext.trans ?_ (hX.trans hx)⟩
     unfold scotInit
     refine Ext.trans (Ext.of_acts_eq ?_) (ext_logAct A _ _ _ _)
     show (firstCount A _).acts = _
